@@ -9,7 +9,7 @@ from typing import Any, Optional
 from pbt import specs
 from pbt.values import combine, ctx_digest, digest
 
-CACHEABLE = {'N1', 'N2', 'N3', 'NN', 'N', 'NX', 'J', 'P2', 'T', 'CtxSub', 'CtxSub2'}
+CACHEABLE = {'N1', 'N2', 'N3', 'NN', 'N', 'NX', 'J', 'P2', 'T', 'CtxSub', 'CtxSub2', 'CtxWrap'}
 FAIL_MODES_ALWAYS = {'exit', 'baseexc', 'kill9', 'kill15', 'raisefrom'}
 
 
@@ -23,6 +23,11 @@ def filtered_ctx(node: dict, context: dict) -> dict:
     if node['type'].startswith('CtxSub'):
         keys = node.get('payload') or []
         out = {k: context[k] for k in keys if k in context}
+        if 'nonce' in context:
+            out['nonce'] = context['nonce']
+        return out
+    if node['type'] == 'CtxWrap':
+        out = {'wrapped': {k: v for k, v in context.items() if k != 'nonce'}}
         if 'nonce' in context:
             out['nonce'] = context['nonce']
         return out
